@@ -1565,7 +1565,17 @@ func (p *printer) genDecl(d *ast.GenDecl, isFileScope bool) {
 	p.setComment(d.Doc)
 
 	// 内部省略 var
-	if isFileScope || d.Tok != token.VAR || d.Lparen != token.NoPos {
+	// (only when the declaration carries a type: `x: T = v`; without one,
+	// `var x = v` would turn into the assignment `x = v`)
+	omitVar := !isFileScope && d.Tok == token.VAR && d.Lparen == token.NoPos
+	if omitVar {
+		for _, s := range d.Specs {
+			if vs, ok := s.(*ast.ValueSpec); !ok || vs.Type == nil {
+				omitVar = false
+			}
+		}
+	}
+	if !omitVar {
 		tok := d.Tok
 		if isFileScope && d.Tok == token.VAR {
 			tok = token.GLOBAL
